@@ -92,6 +92,8 @@ class VMatch:
 class ZS:
     def __init__(self):
         self.unions = {}     # name -> (datatype, api.Union)
+        self.interned = {}
+        self.on_intern = None
         self.enums = {}      # name -> (sort, {label: term}, {label: pyobj})
         self.abstract = {}   # name -> (sort, rank fn)
         self.seq_eq = {}     # z3 seq sort name -> recfun
@@ -242,6 +244,20 @@ class ZS:
                 return z3.Empty(zsort)
             units = [z3.Unit(self.lift(x, es)) for x in v]
             return units[0] if len(units) == 1 else z3.Concat(*units)
+        if self.obj is not None and zsort == self.obj and not isinstance(v, (VStruct, VOpt, VBox)):
+            # a concrete python object (module constant, table key) where an opaque object is expected: interned by python
+            # equality; distinct interned objects are distinct (pyobj_id is their index)
+            try:
+                k = ('eq', type(v).__name__, v)
+                hash(k)
+            except TypeError:
+                k = ('id', id(v))
+            if k not in self.interned:
+                self.interned[k] = (z3.Const(f'pyobj!{len(self.interned)}', self.obj), len(self.interned), v)
+            c, n, _ = self.interned[k]
+            if self.on_intern is not None:
+                self.on_intern(z3.Function('pyobj_id', self.obj, z3.IntSort())(c) == n)
+            return c
         raise TypeError(f'cannot lift {v!r} to {zsort}')
 
     def common(self, a, b):
